@@ -48,6 +48,8 @@ type Check struct {
 	WorkerVMemKB int
 	// HangSec enables the parent's watchdog on the announced case (0 = off).
 	HangSec int
+	// MaxShrink caps per-worker individual shrinking (0 = default); later failures are still reported, unshrunk.
+	MaxShrink int
 }
 
 var registry = map[string]*Check{}
@@ -144,7 +146,7 @@ func WorkerMain(id, tier string, shardIdx, shardN int, outBase string) int {
 		fmt.Fprintln(os.Stderr, err)
 		return 2
 	}
-	cfg := Config{Bound: t.Bound, ShardIdx: shardIdx, ShardN: shardN, MaxExec: t.MaxExec, Tier: tier}
+	cfg := Config{Bound: t.Bound, ShardIdx: shardIdx, ShardN: shardN, MaxExec: t.MaxExec, Tier: tier, MaxShrink: ck.MaxShrink}
 	if v, _ := strconv.ParseInt(os.Getenv("VERIF_MAXEXEC"), 10, 64); v > 0 {
 		cfg.MaxExec = v // debugging aid: cap executions per worker (evidence then says exhaustive:false)
 	}
@@ -273,7 +275,13 @@ func RunCheck(id, tier, verifDir, self string) int {
 		go func(i int) {
 			defer wg.Done()
 			base := filepath.Join(scratch, fmt.Sprintf("w%d", i))
-			cmd := exec.Command(self, "worker", id, tier, strconv.Itoa(i), strconv.Itoa(n), base)
+			bin := self
+			for _, e := range env {
+				if strings.HasPrefix(e, "VERIF_WORKER_BIN=") {
+					bin = strings.TrimPrefix(e, "VERIF_WORKER_BIN=") // e.g. the instrumented build of C18
+				}
+			}
+			cmd := exec.Command(bin, "worker", id, tier, strconv.Itoa(i), strconv.Itoa(n), base)
 			if ck.WorkerVMemKB > 0 {
 				// address-space limit: a runaway allocation kills this worker, not the sandbox
 				cmd = exec.Command("/bin/sh", "-c", fmt.Sprintf("ulimit -v %d; exec \"$0\" \"$@\"", ck.WorkerVMemKB),
